@@ -377,7 +377,7 @@ pub fn run_dict(ctx: &Ctx, out: &mut Outcome, oracle: TreeOracle) {
     out.stats.add("dictionary sweep: programs whose script was not followed (skipped)", unfollowed);
 }
 
-/// Programs taller than any 16-bit quantity: every opcode the loop offers on the empty machine (quick tier: MARK only), repeated 66 000
+/// Programs taller than any 16-bit quantity: an opcode the loop offers on the empty machine (quick tier: MARK; thorough: MARK and five plain value opcodes), repeated 66 000
 /// times through the scripted-choice hook (a shape is used only if the loop follows it at height 3), then the free
 /// step, the collapse tail and STOP. Judged as a whole by the reference machine (the C01 discipline); no per-step
 /// state is recorded, so a run costs a fraction of a second.
@@ -392,8 +392,9 @@ pub fn run_tall(ctx: &Ctx, out: &mut Outcome) {
         let Ok(n0) = run_node(&root, TreeOracle::C01) else { continue };
         for v in n0.valid {
             // generation is quadratic in the stack depth for every opcode but MARK (about a minute per shape at this
-            // height): the quick tier runs the MARK shape only, the thorough tier all of them
-            if !ctx.thorough() && v != t::MARK {
+            // height): the quick tier runs the MARK shape only, the thorough tier also five plain value opcodes
+            let cheap_values = [t::NONE, t::EMPTY_LIST, t::EMPTY_TUPLE, t::EMPTY_DICT, t::INT];
+            if v != t::MARK && !(ctx.thorough() && cheap_values.contains(&v)) {
                 continue;
             }
             let probe = ScriptCase { protocol, script: vec![v; 3], entropy: Entropy::Bytes(vec![]), allow_ext: true, allow_buffer: true };
